@@ -12,9 +12,13 @@ structure Tbl where
   vals : List Nat
 deriving Repr, DecidableEq
 
-/-- Figure C.1: the list of code lengths, one per symbol, in code order. -/
-def sizes (bits : List Nat) : List Nat :=
-  (List.range 16).flatMap (fun k => List.replicate (bits.getD (k + 1) 0) (k + 1))
+/-- Figure C.1: the list of code lengths, one per symbol, in code order:
+`bits[l]` copies of `l` for `l = from .. from + n - 1`. -/
+def sizesFrom (bits : List Nat) : Nat → Nat → List Nat
+  | _, 0 => []
+  | l, n + 1 => List.replicate (bits.getD l 0) l ++ sizesFrom bits (l + 1) n
+
+def sizes (bits : List Nat) : List Nat := sizesFrom bits 1 16
 
 /-- Figure C.2 as coded (inner loop assigns consecutive codes of length `si`; leaving the
 inner loop checks `code < 2^si`, doubles `code` and increments `si`). -/
@@ -72,14 +76,16 @@ structure DDerived where
   vals : List Nat
 deriving Repr, DecidableEq
 
-def f15 (bits : List Nat) (cs : List Nat) : Nat → Nat → List Int → List Int → (List Int × List Int)
-  | 0, _, mc, vo => (mc.reverse, vo.reverse)
-  | n + 1, p, mc, vo =>
-    let l := 16 - n
+/-- Figure F.15 as coded: for each length `l` (from `l`, `n` levels) the pair
+`(maxcode[l], valoffset[l])`; `p` = index of the first code of length `l`.
+`valoffset` of an unused length is uninitialised in C; reported as 0. -/
+def f15 (bits : List Nat) (cs : List Nat) : Nat → Nat → Nat → List (Int × Int)
+  | 0, _, _ => []
+  | n + 1, l, p =>
     let b := bits.getD l 0
     if b ≠ 0 then
-      f15 bits cs n (p + b) ((cs.getD (p + b - 1) 0 : Int) :: mc) (((p : Int) - (cs.getD p 0 : Int)) :: vo)
-    else f15 bits cs n p ((-1 : Int) :: mc) ((0 : Int) :: vo)
+      ((cs.getD (p + b - 1) 0 : Int), (p : Int) - (cs.getD p 0 : Int)) :: f15 bits cs n (l + 1) (p + b)
+    else ((-1 : Int), (0 : Int)) :: f15 bits cs n (l + 1) p
 
 def lookupTbl (bits cs vals : List Nat) : List Nat := Id.run do
   let mut tab : Array Nat := Array.replicate 256 (9 <<< 8)
@@ -101,30 +107,36 @@ def mkDDerived (isDC lossless : Bool) (t : Tbl) : Option DDerived :=
   | none => none
   | some cs =>
     let vals := t.vals ++ List.replicate (256 - t.vals.length) 0
-    let (mc, vo) := f15 t.bits cs 16 0 [] []
+    let lv := f15 t.bits cs 16 1 0
+    let mc := lv.map (·.1)
+    let vo := lv.map (·.2)
     let maxsym := if lossless then 16 else 15
     if isDC && (vals.take sz.length).any (· > maxsym) then none
     else some ⟨(0 : Int) :: mc ++ [0xFFFFF], (0 : Int) :: vo ++ [0], lookupTbl t.bits cs vals, vals⟩
 
 /-! ### Bit-sequential decoding (Figure F.16 as coded in `jpeg_huff_decode`) -/
 
-/-- read bits until `code ≤ maxcode[l]`; `l` starts at `min_bits`.  Returns the
-symbol and the remaining bits; `none` when input is exhausted.  Codes longer than 16
-bits give symbol 0 (with JWRN_HUFF_BAD_CODE in the C code), flagged by `bad`. -/
-def decodeSlow (d : DDerived) : Nat → Nat → Int → List Bool → Option (Nat × Bool × List Bool)
-  | 0, _, _, _ => none
-  | fuel + 1, l, code, bs =>
-    if code ≤ d.maxcode.getD l 0 then
+/-- the per-length decoding data `(maxcode[l], valoffset[l])` for `l = 1 .. 17` -/
+def DDerived.levels (d : DDerived) : List (Int × Int) := (d.maxcode.zip d.valoffset).drop 1
+
+/-- `jpeg_huff_decode`: while `code > maxcode[l]` shift in one more bit and move to the
+next length.  `lv` holds the data of lengths `l, l+1, ..`.  Returns the symbol, a flag for
+"code longer than 16 bits" (JWRN_HUFF_BAD_CODE, symbol 0) and the remaining bits;
+`none` when the input is exhausted. -/
+def decodeLv (vals : List Nat) : List (Int × Int) → Nat → Int → List Bool → Option (Nat × Bool × List Bool)
+  | [], _, _, _ => none
+  | (mc, vo) :: lv, l, code, bs =>
+    if code ≤ mc then
       if l > 16 then some (0, true, bs)
-      else some (d.vals.getD (code + d.valoffset.getD l 0).toNat 0, false, bs)
+      else some (vals.getD (code + vo).toNat 0, false, bs)
     else match bs with
       | [] => none
-      | b :: bs' => decodeSlow d fuel (l + 1) (code * 2 + (if b then 1 else 0)) bs'
+      | b :: bs' => decodeLv vals lv (l + 1) (code * 2 + (if b then 1 else 0)) bs'
 
 /-- decode one symbol from a bit list (first bit read explicitly, `l = 1`) -/
 def decode (d : DDerived) : List Bool → Option (Nat × Bool × List Bool)
   | [] => none
-  | b :: bs => decodeSlow d 18 1 (if b then 1 else 0) bs
+  | b :: bs => decodeLv d.vals d.levels 1 (if b then 1 else 0) bs
 
 /-- the code of symbol `s` as a bit list, most significant bit first -/
 def codeBits (code size : Nat) : List Bool :=
